@@ -725,13 +725,26 @@ def num_ite(g, a, b):
 
 
 def concretize(x):
-    """concretise a symbolic int by forking on each of its feasible values (bounded by the path budget)"""
+    """concretise a symbolic int by forking on each of its feasible values (bounded by the path budget): the first
+    values one by one (model, then `t == v` / `t != v`), beyond CHAIN values by bisection between the tight bounds so
+    that a path carries O(log n) instead of O(n) decisions"""
     ex = _explorer()
     t = x.t if isinstance(x, SNum) else z3.BV2Int(x.word(), False)
-    while True:
+    for _ in range(CHAIN):
         v = ex.model_value(t)
         if bool(mkbool(t == v)):
             return v
+    lo, hi = ex.bounds(t)
+    while lo < hi:
+        mid = (lo + hi) // 2
+        if bool(mkbool(t <= mid)):
+            hi = mid
+        else:
+            lo = mid + 1
+    return lo
+
+
+CHAIN = 6
 
 
 # ------------------------------------------------------------------ byte containers
